@@ -4,11 +4,13 @@ unallocated), with and without backing file, arbitrary (offset, len) incl. unali
 straddling, out-of-range and saturating values, punch supported or not; FlatDisk oracle with the
 property's rule per cluster kind; the specification checker on the flushed file (released clusters
 are free: exact refcounts); result persists across flush + reopen."""
-import c10
+import c10, common
 
 
 def run(tier, seed, replay):
     n = 80 if tier == 'quick' else 2000
+    gate = common.proof_gate('C11', ['Model/Dev.v', 'Proofs/DevProps.v', 'Props/C11.v'])
     return c10.run_foreign('C11', tier, seed, ('read', 'api', 'reopen', 'valid', 'open'), n,
                            'Discard-heavy histories over all cluster kinds; FlatDisk rule of the property; validb on flushed files; reopen sweep.',
-                           mix={'W': 25, 'R': 25, 'D': 35, 'F': 8, 'K': 3, 'S': 2, 'N': 2})
+                           mix={'W': 25, 'R': 25, 'D': 35, 'F': 8, 'K': 3, 'S': 2, 'N': 2},
+                           plain_n=(60 if tier == 'quick' else 1500), level='proof', gate=gate, sim_n=(40 if tier == 'quick' else 1000))
